@@ -1136,11 +1136,31 @@ def c08_caller(ctx):
 
 
 # ======================================================================================= C10
+def _is_search_result(x):
+    """an Option produced by a short-circuit iterator terminal (possibly through Option::map)"""
+    while x is not None and x[0] == 'call' and term_callee(x) == 'std::option::Option::map':
+        x = x[2][0]
+    return x is not None and x[0] == 'call' and term_callee(x).startswith(ITER) and term_method(x) in ITER_SHORT_CIRCUIT
+
+
 def is_some_switches(ctx, b, r):
     """(switch bb, true target, false target, tested term) for every switch on Option::is_some(x)"""
     outl = []
     for sbb, (d, tg) in r.switches.items():
         k, inner = norm_bool(d)
+        if k == 'id' and d[0] == 'discr' and _is_search_result(d[1]):
+            # `if let Some(x) = result` / `match result { Some(..) => .., None => .. }`
+            t = b.blocks[sbb]['term']
+            one = zero = None
+            for v, tgt in t['arms']:
+                if int(v) == 0:
+                    zero = tgt
+                if int(v) == 1:
+                    one = tgt
+            one = one if one is not None else t['otherwise']
+            zero = zero if zero is not None else t['otherwise']
+            outl.append((sbb, one, zero, d[1]))
+            continue
         if k in ('is_some', 'is_none'):
             t = b.blocks[sbb]['term']
             one = None
@@ -1188,7 +1208,8 @@ def c10_signal(ctx):
                     continue
                 # a term known to be None through the path condition of the return edge that carries it
                 if not any(norm_bool(pt) == ('is_some', alt) and lin.fact_truth(f) is False or
-                           norm_bool(pt) == ('is_none', alt) and lin.fact_truth(f) is True for pt, f in pc):
+                           norm_bool(pt) == ('is_none', alt) and lin.fact_truth(f) is True or
+                           (pt == ('discr', alt) and f == ('eq', 0)) for pt, f in pc):
                     if alt not in bad:
                         bad.append(alt)
         out.inst(key, not bad, 'unsignalled returns: %s' % t_str(r.ret)[:100], sample={'task': key_of(b), 'skip_to_end_blocks': len(sig_blocks), 'returns_without_signal': t_str(r.ret)[:200]})
